@@ -517,6 +517,10 @@ pub struct Node {
     pub snap: Snapshot,
     pub sim: Sim,
     pub variant: usize,
+    /// The invocation that led here left a state the model does not define
+    /// (a restat that stopped with an error has adopted an unspecified subset
+    /// of the steps): the history is not extended.
+    pub unknown: bool,
 }
 
 fn opts(t: &Template, targets: &[String], j: usize, k: Option<usize>, adopt: bool) -> BuildOpts {
@@ -575,6 +579,7 @@ pub fn initial(t: &Template) -> Node {
         snap: exec::snapshot(),
         sim,
         variant: 0,
+        unknown: false,
     }
 }
 
@@ -1112,6 +1117,7 @@ impl<'a> Walk<'a> {
         let before = node.sim.clone();
         let mut next_sim;
         let mut ok_build: Option<Vec<String>> = None;
+        let mut restat_stopped = false;
         match inv {
             Inv::Build(tg) => {
                 let (run, _) = run_once(t, before.clone(), tg, 1, None, false, vec![], None);
@@ -1220,6 +1226,7 @@ impl<'a> Walk<'a> {
             Inv::Restat(tg) => {
                 let (run, _) = run_once(t, before.clone(), tg, 1, None, true, vec![], None);
                 self.count(&run);
+                restat_stopped = !matches!(run.result, BuildResult::Success(_));
                 let f = judge(t, &before, &run, tg, true, true);
                 self.report(f, "restat");
                 next_sim = run.sim;
@@ -1283,6 +1290,7 @@ impl<'a> Walk<'a> {
             snap: exec::snapshot(),
             sim: next_sim,
             variant: node.variant,
+            unknown: restat_stopped,
         }
     }
 
@@ -1368,7 +1376,7 @@ impl<'a> Walk<'a> {
                 }
                 // Do not extend histories that already violated: one report
                 // per root cause is enough and later rounds would only echo it.
-                if self.res.violation_count == before_v {
+                if self.res.violation_count == before_v && !next.unknown {
                     self.walk(&next, round + 1, None, marker);
                 }
                 self.path.pop();
@@ -1476,6 +1484,7 @@ fn built_root(t: &Template, root: &Node) -> Node {
         snap: exec::snapshot(),
         sim,
         variant: root.variant,
+        unknown: false,
     }
 }
 
